@@ -298,6 +298,8 @@ class Executor(object):
             if k == "PL":
                 # the equation forms of a moved plane describe the moved plane
                 gf = self.guard("general_form", o.general_form)
+                if not (isinstance(gf, (tuple, list)) and len(gf) == 4 and all(isinstance(c_, (int, float)) and not isinstance(c_, bool) for c_ in gf)):
+                    raise Fail("%s [PL]: general_form() is not four numbers" % tag, {"got": repr(gf)}, self.facts)
                 nf = (float(gf[0]), float(gf[1]), float(gf[2]))
                 u_, v_ = X.perp2(model[2])
                 for q in (model[1], X.add(model[1], u_), X.add(model[1], v_)):
@@ -386,6 +388,8 @@ class Executor(object):
 
         if k == "PL":
             gf = self.guard("general_form", o.general_form)
+            if not (isinstance(gf, (tuple, list)) and len(gf) == 4 and all(isinstance(c_, (int, float)) and not isinstance(c_, bool) for c_ in gf)):
+                raise Fail("%s [PL]: general_form() is not four numbers" % tag, {"got": repr(gf)}, self.facts)
             q = B._xyz(o.p)
             d = float(gf[3])
             if abs(float(gf[0]) * q[0] + float(gf[1]) * q[1] + float(gf[2]) * q[2] - d) > 1e-9 * max(1.0, abs(d)):
